@@ -6,7 +6,7 @@ arithmetic is Mathlib's elliptic-curve group law (`Props/C12Group.lean`) and `n`
 import BipVerif.Lemmas.Bip38Group
 
 namespace BipVerif.Props.C13Group
-open BipVerif BipVerif.Prim BipVerif.Model BipVerif.Props.C13
+open BipVerif BipVerif.Prim BipVerif.Model BipVerif.Model.Bip38Lemmas BipVerif.Props.C13
 
 /-- a compressed point produced by `secpMulG` re-validates to itself -/
 theorem compressCanon : CompressCanon := Bip38Group.compressCanon
